@@ -88,6 +88,12 @@ type Monitors struct {
 	jcLast    map[string]*execution.JobConfig
 	Notes     []string
 	foreign   map[string]bool
+	// non-triviality measures
+	Retries          int
+	MultiAttemptJobs int
+	MaxVersions      int
+	MaxJCVersions    int
+	jcVersions       map[string]int
 }
 
 // CronRequest is one schedule request observed on the cron queue.
@@ -300,6 +306,9 @@ func (m *Monitors) onPod(ev *Event) {
 		if rec == nil {
 			return
 		}
+		if ev.Verb == "delete" && isCtrl(ev.Actor) {
+			m.podDeleted(&Call{Actor: ev.Actor, Verb: "delete", Kind: KPod, NS: p.Namespace, Name: p.Name, Force: ev.Force}, ev.Old.(*corev1.Pod))
+		}
 		if p.Status.Phase == corev1.PodRunning {
 			rec.EverRunning = true
 		}
@@ -319,6 +328,9 @@ func (m *Monitors) onPod(ev *Event) {
 			rec.DelReqAt = now
 		}
 	case Deleted:
+		if ev.Verb == "delete" && isCtrl(ev.Actor) {
+			m.podDeleted(&Call{Actor: ev.Actor, Verb: "delete", Kind: KPod, NS: p.Namespace, Name: p.Name, Force: ev.Force}, ev.Old.(*corev1.Pod))
+		}
 		if rec := m.pods[k]; rec != nil {
 			rec.RemovedAt = now
 			rec.Exists = false
@@ -378,11 +390,15 @@ func (m *Monitors) podCreated(ev *Event, p *corev1.Pod, juid string) {
 	}
 	prev := 0
 	var lastFinish time.Time
+	forgotten := false
 	for _, r := range jr.Pods {
 		if r.Idx != idx {
 			continue
 		}
 		prev++
+		if !r.Recorded && !r.Exists {
+			forgotten = true // an attempt that was never recorded in the status and is gone: nothing remembers it
+		}
 		if r.live() {
 			m.fail("C08", "second-live-task", "task %s created while %s of the same index is neither finished nor gone", p.Name, r.Name)
 		}
@@ -400,14 +416,27 @@ func (m *Monitors) podCreated(ev *Event, p *corev1.Pod, juid string) {
 			lastFinish = f
 		}
 	}
+	if retry >= 1 {
+		m.Retries++
+	}
 	if retry != prev {
-		m.fail("C08", "retry-numbering", "task %s has retry number %d but %d tasks were created for this index before", p.Name, retry, prev)
+		sig := "retry-numbering"
+		if forgotten {
+			sig = "retry-numbering:unrecorded-task:forgotten-attempt"
+		}
+		m.fail("C08", sig, "task %s has retry number %d but %d tasks were created for this index before", p.Name, retry, prev)
 	}
 	if retry >= maxAttempts(j) {
 		m.fail("C08", "too-many-attempts", "task %s has retry number %d with maxAttempts %d", p.Name, retry, maxAttempts(j))
 	}
+	// API timestamps have one-second resolution (the controller's notion of the finish time is truncated)
+	lastFinish = lastFinish.Truncate(time.Second)
 	if prev > 0 && !lastFinish.IsZero() && now.Before(lastFinish.Add(retryDelay(j))) {
-		m.fail("C08", "retry-too-early", "task %s created at %v, before previous attempt's finish %v + retryDelay %v", p.Name, now.Sub(Epoch), lastFinish.Sub(Epoch), retryDelay(j))
+		sig := "retry-too-early"
+		if forgotten {
+			sig = "retry-too-early:unrecorded-task:forgotten-attempt"
+		}
+		m.fail("C08", sig, "task %s created at %v, before previous attempt's finish %v + retryDelay %v", p.Name, now.Sub(Epoch), lastFinish.Sub(Epoch), retryDelay(j))
 	}
 	// gates, on the view of the creating reconcile (falling back to truth for stable facts)
 	vj := viewJob(m.w.current, j.Namespace, j.Name)
@@ -548,10 +577,6 @@ func (m *Monitors) onCall(c *Call) {
 				}
 			}
 		}
-	case c.Kind == KPod && c.Verb == "delete":
-		m.podDeleteRequested(c)
-	case c.Kind == KJob && c.Verb == "delete":
-		m.jobDeleteRequested(c)
 	}
 }
 
@@ -563,15 +588,8 @@ func (m *Monitors) jobCfg() *configv1alpha1.JobExecutionConfig {
 	return cfg
 }
 
-func (m *Monitors) podDeleteRequested(c *Call) {
-	if c.Fault != FNone && c.Fault != FTimeoutAfter && c.Fault != FCrashAfter {
-		return // the request will not be applied
-	}
-	o, ok := m.w.API.peek(KPod)[key(c.NS, c.Name)]
-	if !ok {
-		return
-	}
-	p := o.(*corev1.Pod)
+// podDeleted judges an applied Pod delete request of a controller (p: the Pod before the request).
+func (m *Monitors) podDeleted(c *Call, p *corev1.Pod) {
 	now := m.w.Clk.Now()
 	rec := m.pods[c.NS+"/"+c.Name]
 	m.Evals["C12"]++
@@ -676,15 +694,8 @@ func podBegunRunning(p *corev1.Pod) bool {
 	return p.Status.Phase == corev1.PodSucceeded || p.Status.Phase == corev1.PodFailed
 }
 
-func (m *Monitors) jobDeleteRequested(c *Call) {
-	if c.Fault != FNone && c.Fault != FTimeoutAfter && c.Fault != FCrashAfter {
-		return
-	}
-	o, ok := m.w.API.peek(KJob)[key(c.NS, c.Name)]
-	if !ok {
-		return
-	}
-	j := o.(*execution.Job)
+// jobDeleted judges an applied Job delete request of a controller (j: the Job before the request).
+func (m *Monitors) jobDeleted(j *execution.Job) {
 	if j.DeletionTimestamp != nil {
 		return
 	}
@@ -713,7 +724,11 @@ func (m *Monitors) jobDeleteRequested(c *Call) {
 	var latest time.Time
 	for _, r := range jr.Pods {
 		if r.live() {
-			m.fail("C13", "ttl-unfinished-live", "Job %s deleted by the controller while not finished and task %s is alive", j.Name, r.Name)
+			sig := "ttl-unfinished-live"
+			if !r.Recorded {
+				sig += ":" + m.unrecordedClass(j)
+			}
+			m.fail("C13", sig, "Job %s deleted by the controller while not finished and task %s is alive (listed in status: %v)", j.Name, r.Name, r.Recorded)
 			return
 		}
 		for _, x := range []time.Time{r.FinishedAt, r.RemovedAt, r.TerminalAt} {
@@ -781,7 +796,13 @@ func (m *Monitors) onJob(ev *Event) {
 	if jr == nil {
 		return
 	}
+	if ev.Verb == "delete" && isCtrl(ev.Actor) {
+		m.jobDeleted(ev.Old.(*execution.Job))
+	}
 	jr.Versions++
+	if jr.Versions > m.MaxVersions {
+		m.MaxVersions = jr.Versions
+	}
 	old := ev.Old.(*execution.Job)
 	if ev.Actor == "user" {
 		jr.UserEdited = true
@@ -1023,6 +1044,9 @@ func (m *Monitors) checkJobTransition(ev *Event, jr *jobRec, old, j *execution.J
 	if old.Status.Condition.Finished == nil && j.Status.Condition.Finished != nil {
 		jr.FinishedAt = now
 		m.Evals["C10"]++
+		if numIndexes(j) >= 2 || len(jr.Pods) >= 2 {
+			m.MultiAttemptJobs++
+		}
 		res := j.Status.Condition.Finished.Result
 		if j.DeletionTimestamp == nil {
 			for _, r := range jr.Pods {
@@ -1119,6 +1143,15 @@ func (m *Monitors) onJobConfig(ev *Event) {
 	if ev.Type == Modified {
 		old := ev.Old.(*execution.JobConfig)
 		m.Evals["C15"]++
+		if ev.Verb == "update/status" {
+			if m.jcVersions == nil {
+				m.jcVersions = map[string]int{}
+			}
+			m.jcVersions[string(jc.UID)]++
+			if m.jcVersions[string(jc.UID)] > m.MaxJCVersions {
+				m.MaxJCVersions = m.jcVersions[string(jc.UID)]
+			}
+		}
 		if old.Status.LastScheduled != nil && (jc.Status.LastScheduled == nil || jc.Status.LastScheduled.Before(old.Status.LastScheduled)) {
 			m.fail("C15", "lastScheduled-backwards", "JobConfig %s lastScheduled moved from %v to %v", jc.Name, tsString(old.Status.LastScheduled), tsString(jc.Status.LastScheduled))
 		}
@@ -1362,7 +1395,9 @@ func (m *Monitors) Fixpoint() {
 		}
 		for _, r := range jr.Pods {
 			m.Evals["C09_fix"]++
-			if !r.Recorded {
+			if !r.Recorded && !r.Exists {
+				m.fail("C09", "unrecorded-task:forgotten-attempt", "task %s was created for Job %s, never listed in its status, and is gone at the fixpoint", r.Name, j.Name)
+			} else if !r.Recorded {
 				m.fail("C09", m.unrecordedClass(j), "task %s was created for Job %s but is not listed in its status at the fixpoint (pod exists: %v)", r.Name, j.Name, r.Exists)
 			}
 		}
